@@ -53,7 +53,7 @@ func vfH_C14_session_methods() {
 	vfReach("guarded")
 	vfMonitorOn()
 	when := time.Now().Add(time.Duration(vfInt("dl")))
-	switch vfPick("entry", 0, 27) {
+	switch vfPick("entry", 0, 28) {
 	case 0:
 		s.Read(make([]byte, vfPick("rlen", 1, 4)))
 	case 1:
@@ -114,6 +114,8 @@ func vfH_C14_session_methods() {
 	case 27:
 		dg := vfBytes("dg", s.headerSize-fecHeaderSizePlus2*min(d, 1)+[]int{12, 24, 30}[vfPick("dg_n", 0, 2)])
 		s.packetInput(dg)
+	case 28:
+		s.SetRateLimit(vfU32("rate"))
 	}
 	vfMonitorOff()
 	vfReach("done")
